@@ -218,7 +218,9 @@ _p("C17", "proof",
    "when it steps a MsgAppResp or MsgHeartbeatResp from it, whatever else it steps (C17_leader_hears_only_responses); a tick advances the election timer or "
    "fires the check, which finds a quorum marked or ends the leadership and clears the marks (C17_check_quorum_tick); therefore, over every sequence of ticks "
    "and messages, a leader that hears only from peers that with itself are no quorum of every voter set is no longer leader of its term after at most two "
-   "election timeouts of ticks (C17_check_quorum_steps_down; C17_check_quorum_nonvacuous is a concrete elected leader that only ticks). The monitor checks "
+   "election timeouts of ticks (C17_check_quorum_steps_down; C17_check_quorum_nonvacuous is a concrete elected leader that only ticks); the hypothesis that the leader knows a leader "
+   "is an invariant of reachable states (a leader's lead is its own id and the id is not 0: C17_leader_knows_itself_step / _tick / _history / _start, "
+   "Proofs/RoleProofs.v), which gives C17_check_quorum_steps_down_reachable. The monitor checks "
    "the same bound on every schedule.",
    ["known finding F13: the step-down window is counted from the last leadership-transfer request, because raft.go restarts the election timer "
     "when it accepts one ('Transfer leadership should be finished in one electionTimeout'); the statement without that exclusion is refuted on the "
